@@ -498,7 +498,52 @@ def rule_emptyindex(ctx):
         yield ob(R, f, "%s:no-unguarded-positional-read" % q, not bad, "no element is read by constant position without a non-emptiness test" if not bad else "reads %s without testing that the array is non-empty: an empty annotation raises IndexError" % ", ".join(sorted(set(bad))))
 
 
+def rule_patternflush(ctx):
+    """load_patterns keeps a pending occurrence and a pending pattern; whenever a pattern is handed over to the result
+    list (at a `pattern` header and at end of file) its pending occurrence must already have been attached, and the
+    non-emptiness test must look at the pattern *after* that: otherwise a pattern whose only occurrence is still
+    pending is dropped, or survives only through list aliasing."""
+    R = "C20.PATTERNFLUSH"
+    f = ctx.program.func("io.load_patterns", R)
+    s = ctx.S.get(f.qual)
+
+    def root_name(t):
+        n = 0
+        while t is not None and n < 80:
+            n += 1
+            if t.op in ("loop", "loopvar"):
+                return t.a[1]
+            if t.op == "upd":
+                t = t.a[0]
+            elif t.op == "ite":
+                t = t.a[1] if t.a[1].op != "list" else t.a[2]
+            else:
+                return None
+        return None
+
+    need(len(s.returns) >= 1, R, "load_patterns: no return")
+    res = root_name(s.returns[-1].term)
+    need(res is not None, R, "load_patterns: the returned list is not a loop-built variable")
+    flushes = [m for m in s.by_kind("mutate") if m.how == "method:append" and m.root == res]
+    need(len(flushes) >= 1, R, "load_patterns: no append to the result list %s" % res)
+    n = 0
+    for m in flushes:
+        n += 1
+        v = m.val.a[0] if m.val.op == "tuple" and len(m.val.a) == 1 else m.val
+        attached = [x for x in tm.walk(v) if x.op == "upd" and x.a[1] == "method:append"]
+        good = bool(attached)
+        guard_ok = True
+        for c, pol in symeval.pc_conds(m.pc):
+            # an emptiness test of the pending pattern on this path must see the flushed value
+            if c.op == "cmp" and any(z.op == "list" and not z.a for z in c.a[1:]):
+                other = [z for z in c.a[1:] if not (z.op == "list" and not z.a)]
+                if other and root_name(other[0]) == root_name(v) and other[0] is not v:
+                    guard_ok = False
+        yield ob(R, f, "io.load_patterns:flush#%d" % n, good and guard_ok, "the pattern appended to %s already carries its pending occurrence, and its emptiness is tested after that" % res if good and guard_ok else ("the pattern is appended to %s before its pending occurrence is attached (value %s)" % (res, tm.show(v, 2)) if not good else "the emptiness of the pending pattern is tested before its pending occurrence is attached: a pattern with a single occurrence is dropped"), node=m.node)
+
+
 RULES = [
+    ("C20.PATTERNFLUSH", 2, rule_patternflush),
     ("C20.VALIDATORTOTAL", 10, rule_validatortotal),
     ("C20.CONVERTERS", 14, rule_converters),
     ("C20.ERRDISC", 5, rule_errdisc),
